@@ -228,7 +228,9 @@ def spkiP256Header : Bytes :=
 def rpAttestation (att : Bytes) : Option (Bytes × Bytes × Cbor.Item) :=
   match Cbor.decode1 att with
   | some (.map kvs, []) =>
-    match Cbor.mapGetText kvs "fmt".toUTF8.toList, Cbor.mapGetText kvs "attStmt".toUTF8.toList, Cbor.mapGetText kvs "authData".toUTF8.toList with
+    -- member names "fmt", "attStmt", "authData" as bytes
+    match Cbor.mapGetText kvs [0x66, 0x6d, 0x74], Cbor.mapGetText kvs [0x61, 0x74, 0x74, 0x53, 0x74, 0x6d, 0x74],
+        Cbor.mapGetText kvs [0x61, 0x75, 0x74, 0x68, 0x44, 0x61, 0x74, 0x61] with
     | some (.text f), some st, some (.bytes ad) => some (f, ad, st)
     | _, _, _ => none
   | _ => none
@@ -266,7 +268,7 @@ def c02_register (cfg : Cfg) (kind : StoreKind) (origin : RpId.Origin) (originSt
     match rpAttestation r.attObj with
     | none => some "attestation-object-unreadable"
     | some (fmt, adIn, stmt) =>
-    if fmt != "none".toUTF8.toList || stmt != .map [] then some "attestation-not-none" else
+    if fmt != [0x6e, 0x6f, 0x6e, 0x65] || stmt != .map [] then some "attestation-not-none" else
     if adIn != r.authData then some "authenticator-data-inside-and-outside-attestation-object-differ" else
     match rpParseAuthData r.authData with
     | none => some "authenticator-data-unreadable"
